@@ -172,6 +172,31 @@ func discharge(o *Oblig, cfg *SolverCfg, idx int) {
 		}
 		cancel2()
 	}
+	if cfg.thorough && (final.status == "sat" || final.status == "unsat") {
+		// thorough tier: the other solvers answer the same query (short budget); a definite answer
+		// that contradicts the first one means the engine or a solver is broken
+		cross := 20 * time.Second
+		ch := make(chan res, 2)
+		n := 0
+		for _, r := range solverCmds(file, cross, cfg.seed) {
+			if r.name == final.solver {
+				continue
+			}
+			r := r
+			n++
+			go func() {
+				s, o := runSolverSlot(context.Background(), cross, r)
+				ch <- res{r.name, s, o}
+			}()
+		}
+		for i := 0; i < n; i++ {
+			r := <-ch
+			o.Cross = append(o.Cross, r.solver+":"+r.status)
+			if (r.status == "sat" || r.status == "unsat") && r.status != final.status {
+				o.Disagree = true
+			}
+		}
+	}
 	o.Status = final.status
 	o.Solver = final.solver
 	o.Millis = time.Since(start).Milliseconds()
